@@ -1,20 +1,42 @@
 """C20 - the debtags database keeps its two indexes mutually inverse.
 
-Workload: seeded *chain* histories over the live ``debian.debtags.DB``: ``read``
-of generated tag lines (distinct package names, several line layouts, optional
+Workload: seeded histories over the live ``debian.debtags.DB``: ``read`` of
+generated tag lines (distinct package names, several line layouts, optional
 tag filter), ``insert`` of a fresh package, and the derivations
 ``filter_packages[_copy]``, ``filter_packages_tags[_copy]``,
 ``filter_tags[_copy]``, ``choose_packages[_copy]``, ``facet_collection``,
-``reverse``, ``reverse_copy``, ``copy`` - each derivation replaces the current
-DB, the parent is dropped (so aliasing between live relatives, which the
-sharing variants have by documented design, is never exercised).
+``reverse``, ``reverse_copy``, ``copy``.  Two shapes:
 
-Deciding monitor M (client boundary): after EVERY step all query methods of the
-current DB (iter_packages / iter_tags / iter_packages_tags / iter_tags_packages
-/ package_count / tag_count / has_package / has_tag / tags_of_package /
-packages_of_tag / card, on present and on absent names) are compared with an
-independent reference relation (vp.models.tagrel.Rel) transformed by the same
-operation.
+* *chain* histories - each derivation replaces the current DB, the parent is
+  dropped (aliasing between live relatives, which the sharing filter/choose
+  variants have by documented design, is never exercised);
+* *live-pair* histories (``reverse()`` only - its result is documented and
+  implemented as a view) - pseudo-op ``reverse_view``: ``v = db.reverse()`` and
+  BOTH objects stay alive; later ``insert`` / ``read`` / ``query`` steps carry
+  ``'on': 'other'`` when they address the other object of the pair, and after
+  EVERY step both objects are judged: the object against the reference
+  relation, its partner against the swapped relation, K8 on both.  The pair is
+  formed on degenerate collections too (empty DB; packages without any tag,
+  read from lines like ``a`` / ``b:``; a single package; tag keys without
+  packages; everything filtered away) - collections in which one of the two
+  dictionaries is empty when ``reverse()`` runs.  A ``read`` on one object, a
+  ``drop`` or any derivation ends the pair; the chain continues from one of
+  the two objects and a pair may be formed again.
+
+``query`` steps call tags_of_package / has_package / packages_of_tag / has_tag
+/ card on given names - mostly names that are ABSENT in the role asked about,
+among them names a LATER insert of the same history uses and tags not stored
+yet.  Around these calls, and around the queries the comparison itself makes
+at every step, package_count / tag_count / iter_* are snapshotted on every
+live object: queries must not change what they report.
+
+Deciding monitor M (client boundary): after EVERY step all query methods of
+every live DB (iter_packages / iter_tags / iter_packages_tags /
+iter_tags_packages / package_count / tag_count / has_package / has_tag /
+tags_of_package / packages_of_tag / card, on present and on absent names) are
+compared with an independent reference relation (vp.models.tagrel.Rel)
+transformed by the same operation (evidence: M = the object operated on,
+M.pair = the live partner, M.query = before/after snapshots).
 
 Auxiliary monitor K8 (contract at the hook, implemented here): after
 ``DB.insert``, after ``DB.read`` and on every ``DB`` returned by a derivation,
@@ -22,18 +44,23 @@ Auxiliary monitor K8 (contract at the hook, implemented here): after
 evaluated on intermediate objects too (the collection ``facet_collection``
 builds through ``insert``), records instead of raising, and run_case drains
 its log after every step - so one known defect at an insert boundary does not
-abort the history.
+abort the history.  In live-pair histories the same condition is additionally
+evaluated on BOTH objects after every step (K8.pair).
 
 Classifier (mechanism keys).  ``insert-new-tag-stores-name-characters`` is
 reported when, and only when, EVERY disagreement observed at an insert /
 facet_collection step has this shape: the tag was not present before, the
 package inserted first under it has a multi-character name q, and the tag's
 package set equals  (expected - {q}) | set(q)  - i.e. the *characters* of q
-stand where q should be.  Anything else gets a key naming the disagreeing
-query and the operation kind.  After the known mechanism the harness rebuilds
-the current DB from the reference relation and continues the history, so it
-neither masks nor contaminates later steps; after any other violation the
-history ends.
+stand where q should be.  In a live pair the partner shows the same set as the
+tag set of its package t (tags_of_package / iter_packages_tags); that image is
+accepted only if the object itself shows the mechanism for the same t and q.
+Anything else gets a key naming the disagreeing query and the operation kind
+(suffix ``/on-live-reverse-partner`` when it was seen on the object the
+operation was NOT applied to).  After the known mechanism the harness rebuilds
+the current DB from the reference relation (and, in a live pair, forms the
+pair again with reverse()) and continues the history, so it neither masks nor
+contaminates later steps; after any other violation the history ends.
 """
 import io
 import zlib
@@ -42,19 +69,45 @@ from ..models.tagrel import Rel
 
 PROP = 'C20'
 LEVEL = 'exploration'
-RULE = ('Seeded chain histories of <= 10 operations (read of generated tag lines / insert of a fresh package / '
-        '12 derivation kinds, each replacing the current DB); package names of length 1 and 2..12, tags with and '
-        'without a "::" facet.  A history is non-trivial when it executed >= 3 operations of >= 2 different kinds, '
-        'at least one of them a derivation, and at some checked step the relation was many-to-many (a tag with '
-        '>= 2 packages and a package with >= 2 tags).')
+RULE = ('Seeded histories of <= ~12 operations over debtags.DB: read of generated tag lines / insert of a fresh package / '
+        '12 derivation kinds.  (1) chain histories: each derivation replaces the current DB.  (2) live-pair histories: '
+        'v = db.reverse() with BOTH objects kept alive (pseudo-op reverse_view), formed on general and on degenerate '
+        'collections (empty DB; packages without tags read from lines like "a", "b:"; a single package; tag keys without '
+        'packages; everything filtered away), then inserts of fresh single- and multi-character names, reads and queries '
+        'addressed to EITHER object, both objects judged after every step (the partner against the swapped relation, K8 on '
+        'both); a read, a drop or a derivation ends the pair and the chain continues from one object.  (3) query steps in '
+        'both shapes: tags_of_package / has_package / packages_of_tag / has_tag / card on names that are mostly absent '
+        '(including names a later insert uses); package_count, tag_count and the iter_* results are snapshotted before and '
+        'after these calls and around the queries of every comparison, on every live object.  Package names of length 1 and '
+        '2..12, tags with and without a "::" facet.  A history is non-trivial when it executed >= 3 operations of >= 2 '
+        'different kinds, at least one of them a derivation (reverse_view counts), and at some checked step the relation was '
+        'many-to-many (a tag with >= 2 packages and a package with >= 2 tags).')
 ASSUMPTIONS = [
     'vp.models.tagrel.Rel (a set of pairs + upper bounds for keys with empty sets) is the reference relation',
     'whether a package without tags (or, after reverse, a tag without packages) remains a key is left open: '
     'observed keys must lie between dom/ran of the relation and the model upper bound, extra keys must map to the empty set',
     'facet of a tag "f::x" is "f" (independent rule); the facet NAME the library gives a tag without "::" is not part of '
     'the property - it is learned from the library on a one-pair collection and only the consistency of the whole relation under that per-tag map is demanded',
-    'domain guards: chain histories only; read input has distinct package names and no blank lines; inserted names are fresh '
-    'w.r.t. current packages and tags; choose_packages_copy is only given names that are present',
+    'domain guards: read input has distinct package names and no blank lines; inserted names are fresh '
+    'w.r.t. the current packages and tags of every live object; choose_packages_copy is only given names that are present',
+    'live relatives: ONLY the pair db / db.reverse() is kept alive and mutated (reverse() is documented as sharing with the '
+    'original and implemented as a view over both dictionaries; established on the unchanged tree: the pair stays consistent '
+    'in every sub-case driven, including pairs formed while one or both dictionaries are empty).  The results of the sharing '
+    'filter_* / choose_* variants are still never mutated next to a live parent (any derivation ends the pair)',
+    'the view is judged against the swapped reference relation after inserts into either object.  A read() on one object '
+    'of a live pair is the one step where the statement is silent about the OTHER object: it may keep the relation it had '
+    '(the implementation as written - read rebinds both dictionaries) or show the swapped new relation (an in-place '
+    'read); either is accepted, anything else is a violation; the pair ends at that step and the history continues from one '
+    'of the two objects with the reference it matched',
+    'the known insert defect seen through a live pair: the partner must show the same character set as tags_of_package / '
+    'iter_packages_tags of the tag, and only if the object inserted into shows it for the same tag and name; then BOTH '
+    'objects are replaced (DB rebuilt from the reference relation, partner = its reverse()) - nothing is patched inside a '
+    'live object, because an implementation may keep derived state (caches) the harness cannot see; the lineage of a '
+    'degenerate starting collection ends there (counted as pair:insert/formed-again afterwards)',
+    'queries must not change what later queries report: compared are package_count, tag_count and the CONTENT of the four '
+    'iter_* results (order-insensitive; iteration order is not part of the statement) before and after query calls; '
+    'names asked about in a query step may be present or absent (both must leave the collection unchanged), values '
+    'returned for them are compared with the reference relation (absent: empty set / False / 0)',
     'the tag-line text is rendered by the harness from the structured entries of the case (layout bookkeeping is trusted)',
 ]
 ANCHORS = ['debian.debtags:parse_tags',
@@ -475,10 +528,25 @@ SNAP_NAMES = ('package_count', 'tag_count', 'iter_packages', 'iter_tags', 'iter_
 
 
 def snapshot(db):
-    """What the counting / iterating methods report right now (order-insensitive, plain data)."""
-    return (db.package_count(), db.tag_count(), sorted(db.iter_packages()), sorted(db.iter_tags()),
-            sorted((p, sorted(ts)) for p, ts in db.iter_packages_tags()),
-            sorted((t, sorted(ps)) for t, ps in db.iter_tags_packages()))
+    """What the counting / iterating methods report right now (order-insensitive, plain data, no live sets)."""
+    return (db.package_count(), db.tag_count(), frozenset(db.iter_packages()), frozenset(db.iter_tags()),
+            dict((p, frozenset(ts)) for p, ts in db.iter_packages_tags()),
+            dict((t, frozenset(ps)) for t, ps in db.iter_tags_packages()))
+
+
+def _snap_show(x):
+    if isinstance(x, dict):
+        return dict((k, sorted(v)) for k, v in sorted(x.items()))
+    return _srt(x)
+
+
+def snap_diff(objs, before, after):
+    """First counting / iterating observable that differs between two snapshot lists, or None."""
+    for (who, _o), b4, af in zip(objs, before, after):
+        if b4 != af:
+            j = [x != y for x, y in zip(b4, af)].index(True)
+            return who, SNAP_NAMES[j], _snap_show(b4[j]), _snap_show(af[j])
+    return None
 
 
 def absent_of(model):
@@ -638,13 +706,12 @@ def run_case(ctx, case):
                 ctx.mon('M.query', len(objs))
                 if partner is not None:
                     ctx.count('q:with-live-partner')
-                for (who, _o), b4, af in zip(objs, before, after):
-                    if b4 != af and qfail is None:
-                        j = [x != y for x, y in zip(b4, af)].index(True)
-                        qfail = ('%s-changed-by-queries%s' % (SNAP_NAMES[j], who),
-                                 'step %d: after tags_of_package / has_package / packages_of_tag / has_tag / card on %r '
-                                 '(package keys before: %r, tag keys before: %r) %s() reports %r, before the queries %r'
-                                 % (i, op['names'], sorted(pkeys), sorted(tkeys), SNAP_NAMES[j], af[j], b4[j]))
+                diff = snap_diff(objs, before, after)
+                if diff is not None:
+                    qfail = ('%s-changed-by-queries%s' % (diff[1], diff[0]),
+                             'step %d: after tags_of_package / has_package / packages_of_tag / has_tag / card on %r '
+                             '(package keys before: %r, tag keys before: %r) %s() reports %r, before the queries %r'
+                             % (i, op['names'], sorted(pkeys), sorted(tkeys), diff[1], diff[3], diff[2]))
                 if qfail is None and qrecs:
                     qfail = ('%s-disagrees-with-reference-in-query-step' % qrecs[0][0], 'step %d: %s' % (i, _fmt_recs(qrecs)))
                 nxt, nmodel = cur, model
@@ -720,6 +787,10 @@ def run_case(ctx, case):
         k8 = list(K8_LOG)
         K8_LOG[:] = []
         absent = absent_of(model)
+        # the comparison itself asks about absent names (and about names whose key a derivation may have dropped):
+        # what the counting / iterating methods report must be the same before and after it, on every live object
+        objs = [('', cur)] + ([(PARTNER, partner)] if partner is not None else [])
+        before = [snapshot(o) for _, o in objs]
         ctx.mon('M')
         recs = compare(cur, model, absent)
         many_to_many = many_to_many or model.shared_tag()
@@ -732,14 +803,13 @@ def run_case(ctx, case):
             ctx.mon('M.pair')
             precs = compare(partner, pmodel, absent_of(pmodel))
             if kind == 'read':
-                if precs:
+                if not precs:
+                    ctx.count('pair:read-partner-keeps')
+                else:
                     alt = model.reversed()
                     if not compare(partner, alt, absent_of(alt)):
                         precs, pmodel = [], alt
                         ctx.count('pair:read-partner-follows')
-                if not precs:
-                    ctx.count('pair:read-partner-keeps' if pmodel is not None and pmodel.pairs == prev_model.reversed().pairs
-                              else 'pair:read-partner-other')
             if k8_usable():
                 for who, o in (('object', cur), ('partner', partner)):
                     try:
@@ -750,6 +820,15 @@ def run_case(ctx, case):
                     ctx.mon('K8.pair')
                     if m or e:
                         pk8.append({'where': 'pair-step/' + kind, 'who': who, 'obj': id(o), 'missing': m, 'extra': e})
+
+        ctx.mon('M.query', len(objs))
+        diff = snap_diff(objs, before, [snapshot(o) for _, o in objs])
+        if diff is not None:
+            ctx.violation('%s-changed-by-queries%s' % (diff[1], diff[0]),
+                          'step %d (%s): the query methods were called on all present names and on the absent names %r; '
+                          'afterwards %s() reports %r, before %r' % (i, kind, sorted(absent), diff[1], diff[3], diff[2]), prefix(i))
+            ctx.extra['histories_ended_early'] += 1
+            break
 
         if recs or k8 or precs or pk8:
             # ---- classification -----------------------------------------------
@@ -784,9 +863,12 @@ def run_case(ctx, case):
                     mrec = mirror(rec)
                     back[id(mrec)] = rec
                     mirrored.append(mrec)
-                first, rest_all = explain_known(recs + mirrored, model.inv(), kind, ins_pkg, new_tags, k8_first)
-                rest = [x for x in rest_all if id(x) not in back]
-                prest = [back[id(x)] for x in rest_all if id(x) in back]
+                first, rest = explain_known(recs, model.inv(), kind, ins_pkg, new_tags, k8_first)
+                pfirst, prest_m = explain_known(mirrored, model.inv(), kind, ins_pkg, new_tags, k8_first)
+                prest = [back[id(x)] for x in prest_m]
+                for t in sorted(pfirst):
+                    if first.get(t) != pfirst[t]:       # the partner shows the mechanism where the object itself does not
+                        prest.extend(back[id(x)] for x in mirrored if x[1] == t and not x[0].startswith('@'))
                 dm, de = set(), set()
                 for x in k8_ins:
                     if x['obj'] == id(cur):
@@ -839,28 +921,26 @@ def run_case(ctx, case):
                 if again or any(_mismatch(cur.db, cur.rdb)):
                     raise RuntimeError('harness: rebuilt DB disagrees with the reference: %s' % _fmt_recs(again))
             else:
-                # live pair: the objects (and whatever they share) must stay the ones the library made, so the
-                # corrupted package sets are corrected IN PLACE (public dict attribute of the object inserted into)
-                inv = model.inv()
-                bad = set(first)
-                for x in k8_ins:
-                    if x['obj'] == id(cur):
-                        bad.update(x['new_tags'])
-                for t in sorted(bad):
-                    s = cur.rdb.get(t)
-                    if isinstance(s, set):
-                        s.clear()
-                        s.update(inv.get(t, ()))
-                pm = model.reversed()
+                # live pair: both objects are replaced - the object by a DB holding the reference relation, the partner
+                # by a fresh reverse() of it (nothing is patched inside live objects: an implementation may keep
+                # derived state the harness cannot see)
+                cur = rebuild(DB, model, cur.iter_packages(), cur.iter_tags())
                 again = compare(cur, model, absent)
-                pagain = compare(partner, pm, absent_of(pm))
-                if again or pagain or any(_mismatch(cur.db, cur.rdb)) or any(_mismatch(partner.db, partner.rdb)):
-                    ctx.violation('live-reverse-pair-diverges-after-known-insert-defect',
-                                  'step %d (%s): after correcting in place the package sets the known insert defect left '
-                                  'under %r, object: %s; partner: %s' % (i, kind, sorted(bad), _fmt_recs(again) or 'agrees',
-                                                                        _fmt_recs(pagain) or 'agrees'), prefix(i))
+                if again or any(_mismatch(cur.db, cur.rdb)):
+                    raise RuntimeError('harness: rebuilt DB disagrees with the reference: %s' % _fmt_recs(again))
+                partner = cur.reverse()
+                K8_LOG[:] = []
+                pm = model.reversed()
+                pagain = compare(partner, pm, absent_of(pm)) if isinstance(partner, DB) else [('reverse', None, 'a DB', type(partner))]
+                if pagain:
+                    ctx.violation('%s-disagrees-with-reference-after-reverse%s' % (pagain[0][0], PARTNER),
+                                  'step %d (%s): live pair formed again after the known insert defect (reverse() of a DB '
+                                  'holding the reference relation): %s' % (i, kind, _fmt_recs(pagain)), prefix(i))
                     ctx.extra['histories_ended_early'] += 1
                     break
+                cur_is_view = False
+                pclass = 'formed-again'
+                ctx.count('pair:formed-again-after-known-defect')
             ctx.extra['known_defect_repairs'] += 1
 
         # ---- after a read() on one object of a live pair the pair ends: continue with one of the two ----------
@@ -930,21 +1010,25 @@ def gen_pred(r, names):
     return {'k': r.choice(['true', 'true', 'false'])}
 
 
-def gen_read(r, state, single, pool):
+def gen_read(r, state, single, pool, avoid=(), nlines=None, max_tags=None):
     ents = []
     used = set()
     form = r.choice(['iter', 'iter', 'list', 'gen', 'stringio'])
-    nlines = r.choice([0, 1, 2, 3, 3, 4, 5, 6, 8])
+    if nlines is None:
+        nlines = r.choice([0, 1, 2, 3, 3, 4, 5, 6, 8])
     for _ in range(nlines):
         pkgs = []
         for _k in range(2 if r.random() < 0.2 else 1):
-            p = fresh_pkg(r, used | set(pool), single)
+            p = fresh_pkg(r, used | set(pool) | set(avoid), single)
             if p is not None:
                 pkgs.append(p)
                 used.add(p)
         if not pkgs:
             continue
-        tags = r.sample(pool, min(len(pool), r.choice([0, 1, 1, 2, 2, 3, 4])))
+        ntags = r.choice([0, 1, 1, 2, 2, 3, 4])
+        if max_tags is not None:
+            ntags = min(ntags, max_tags)
+        tags = r.sample(pool, min(len(pool), ntags))
         e = {'pkgs': pkgs, 'tags': tags}
         if tags:
             sep = r.choice([': ', ': ', ': ', ':  ', ':\t'])
@@ -967,105 +1051,277 @@ def gen_read(r, state, single, pool):
     return op
 
 
-def gen_history(r):
-    single = r.random() < 0.4
+def gen_apply(model, op):
+    """Generation-time model: only steers argument choice (facet names of facet-less tags are approximated;
+    a read() inside a live pair is taken to leave the other object alone)."""
+    k = op['op']
+    if k == 'read':
+        tf = make_pred(op['tag_filter']) if op.get('tag_filter') else None
+        return Rel.from_lines([(e['pkgs'], e['tags']) for e in op['entries']], tf)
+    if k == 'insert':
+        return model.insert(op['pkg'], op['tags'])
+    if k in ('reverse', 'reverse_copy'):
+        return model.reversed()
+    if k in ('copy', 'reverse_view', 'query', 'drop'):
+        return model
+    if k == 'facet_collection':
+        return model.map_tags(lambda t: t.split('::', 1)[0] if '::' in t and not t.startswith(':') else t)
+    if k.startswith('filter_packages_tags'):
+        return model.keep_packages_tags(make_pt_pred(op['pred']))
+    if k.startswith('filter_packages'):
+        return model.keep_packages(make_pred(op['pred']))
+    if k.startswith('filter_tags'):
+        return model.keep_tags(make_pred(op['pred']))
+    return model.choose(op['names'])
+
+
+def gen_insert(r, model, pool, single, future=None):
+    used = set(model.pmax) | set(model.tmax) | set(pool)
+    p = None
+    if future and r.random() < 0.5:
+        p = future.pop(r.randrange(len(future)))      # a name an earlier query step may have asked about
+        if p in used:
+            p = None
+    if p is None:
+        p = fresh_pkg(r, used | set(future or ()), single)
+    if p is None:
+        return None
+    tags = set()
+    for _ in range(r.choice([0, 1, 1, 2, 2, 3])):
+        cand = sorted(model.tmax)
+        if cand and r.random() < 0.55:
+            tags.add(r.choice(cand))
+        elif r.random() < 0.7:
+            tags.add(r.choice(pool))
+        else:
+            t = fresh_tag(r, used | {p})
+            if t is not None:
+                tags.add(t)
+    tags.discard(p)
+    tags -= set(model.pmax)       # fresh tags never collide with package names
+    return {'op': 'insert', 'pkg': p, 'tags': sorted(tags)}
+
+
+def gen_query(r, model, pool, future):
+    """Queries by name: mostly names that are ABSENT in the role asked about (names a later insert will use,
+    tags of the pool not stored yet, packages asked about as tags and vice versa, the tag-less names a
+    derivation may have dropped), some present ones."""
+    names = set()
+    for _ in range(r.choice([1, 2, 3, 4, 6])):
+        k = r.random()
+        if k < 0.30 and future:
+            names.add(r.choice(future))
+        elif k < 0.50:
+            names.add(r.choice(pool))
+        elif k < 0.62 and model.pmax:
+            names.add(r.choice(sorted(model.pmax)))
+        elif k < 0.74 and model.tmax:
+            names.add(r.choice(sorted(model.tmax)))
+        elif k < 0.85:
+            names.add('~absent~')
+        else:
+            n = fresh_pkg(r, names, r.random() < 0.5)
+            if n is not None:
+                names.add(n)
+    return {'op': 'query', 'names': sorted(names)}
+
+
+def gen_derivation(r, model, k):
+    """k in [0.34, 1): the derivation slots of the chain generator."""
+    if k < 0.42:
+        return {'op': r.choice(['reverse', 'reverse_copy'])}
+    if k < 0.47:
+        return {'op': 'copy'}
+    if k < 0.56:
+        return {'op': 'facet_collection'}
+    if k < 0.67:
+        return {'op': r.choice(['filter_packages', 'filter_packages_copy']), 'pred': gen_pred(r, model.pmax)}
+    if k < 0.78:
+        return {'op': r.choice(['filter_tags', 'filter_tags_copy']), 'pred': gen_pred(r, model.tmax)}
+    if k < 0.89:
+        kk = r.random()
+        ran = sorted(model.ran())
+        if kk < 0.55 and ran:
+            pred = {'k': 'hastag', 'tag': r.choice(ran), 'neg': r.random() < 0.35}
+        elif kk < 0.8:
+            pred = {'k': 'ntags', 'min': r.choice([0, 1, 2, 3])}
+        else:
+            pred = {'k': 'pkg', 'pred': gen_pred(r, model.pmax)}
+        return {'op': r.choice(['filter_packages_tags', 'filter_packages_tags_copy']), 'pred': pred}
+    copyv = r.random() < 0.5
+    cand = sorted(model.pmax)
+    names = r.sample(cand, r.randint(0, len(cand))) if cand else []
+    if names and r.random() < 0.2:
+        names.append(r.choice(names))           # a repeated name
+    if not copyv and r.random() < 0.5:
+        names.insert(r.randint(0, len(names)), '~nonexistent~')
+        if model.tmax and r.random() < 0.5:
+            t = r.choice(sorted(model.tmax))
+            if t not in model.pmax:
+                names.append(t)                 # a tag name is not a package
+    op = {'op': 'choose_packages_copy' if copyv else 'choose_packages', 'names': names}
+    a = r.choice(['list', 'list', 'iter', 'tuple'])
+    if a != 'list':
+        op['as'] = a
+    return op
+
+
+def gen_pool(r):
     pool = []
     for _ in range(r.randint(3, 9)):
         t = fresh_tag(r, set(pool))
         if t is not None:
             pool.append(t)
+    return pool
+
+
+def gen_future(r, pool, single):
+    future = []
+    for _ in range(r.randint(2, 4)):
+        n = fresh_pkg(r, set(pool) | set(future), single and r.random() < 0.7)
+        if n is not None:
+            future.append(n)
+    return future
+
+
+def gen_history(r):
+    """Chain history: every derivation replaces the current DB."""
+    single = r.random() < 0.4
+    pool = gen_pool(r)
+    future = gen_future(r, pool, single)
     ops = []
     model = Rel()
     n_ops = r.choice([2, 3, 4, 5, 6, 7, 8, 9, 10, 10])
 
-    def apply(op):
-        # generation-time state only steers argument choice; facet names of facet-less tags are approximated
-        k = op['op']
-        if k == 'read':
-            tf = make_pred(op['tag_filter']) if op.get('tag_filter') else None
-            return Rel.from_lines([(e['pkgs'], e['tags']) for e in op['entries']], tf)
-        if k == 'insert':
-            return model.insert(op['pkg'], op['tags'])
-        if k in ('reverse', 'reverse_copy'):
-            return model.reversed()
-        if k == 'copy':
-            return model.same()
-        if k == 'facet_collection':
-            return model.map_tags(lambda t: t.split('::', 1)[0] if '::' in t and not t.startswith(':') else t)
-        if k.startswith('filter_packages_tags'):
-            return model.keep_packages_tags(make_pt_pred(op['pred']))
-        if k.startswith('filter_packages'):
-            return model.keep_packages(make_pred(op['pred']))
-        if k.startswith('filter_tags'):
-            return model.keep_tags(make_pred(op['pred']))
-        return model.choose(op['names'])
-
     if r.random() < 0.8:
-        op = gen_read(r, model, single, pool)
+        op = gen_read(r, model, single, pool, future)
         ops.append(op)
-        model = apply(op)
+        model = gen_apply(model, op)
     while len(ops) < n_ops:
+        if r.random() < 0.07:
+            op = gen_query(r, model, pool, future)
+            ops.append(op)
+            continue
         k = r.random()
-        used = set(model.pmax) | set(model.tmax) | set(pool)
         if k < 0.30:
-            p = fresh_pkg(r, used, single)
-            if p is None:
+            op = gen_insert(r, model, pool, single, future)
+            if op is None:
                 continue
-            tags = set()
-            for _ in range(r.choice([0, 1, 1, 2, 2, 3])):
-                cand = sorted(model.tmax)
-                if cand and r.random() < 0.55:
-                    tags.add(r.choice(cand))
-                elif r.random() < 0.7:
-                    tags.add(r.choice(pool))
-                else:
-                    t = fresh_tag(r, used | {p})
-                    if t is not None:
-                        tags.add(t)
-            tags.discard(p)
-            tags -= set(model.pmax)       # fresh tags never collide with package names
-            op = {'op': 'insert', 'pkg': p, 'tags': sorted(tags)}
         elif k < 0.34:
-            op = gen_read(r, model, single, pool)
-        elif k < 0.42:
-            op = {'op': r.choice(['reverse', 'reverse_copy'])}
-        elif k < 0.47:
-            op = {'op': 'copy'}
-        elif k < 0.56:
-            op = {'op': 'facet_collection'}
-        elif k < 0.67:
-            op = {'op': r.choice(['filter_packages', 'filter_packages_copy']), 'pred': gen_pred(r, model.pmax)}
-        elif k < 0.78:
-            op = {'op': r.choice(['filter_tags', 'filter_tags_copy']), 'pred': gen_pred(r, model.tmax)}
-        elif k < 0.89:
-            kk = r.random()
-            ran = sorted(model.ran())
-            if kk < 0.55 and ran:
-                pred = {'k': 'hastag', 'tag': r.choice(ran), 'neg': r.random() < 0.35}
-            elif kk < 0.8:
-                pred = {'k': 'ntags', 'min': r.choice([0, 1, 2, 3])}
-            else:
-                pred = {'k': 'pkg', 'pred': gen_pred(r, model.pmax)}
-            op = {'op': r.choice(['filter_packages_tags', 'filter_packages_tags_copy']), 'pred': pred}
+            op = gen_read(r, model, single, pool, future)
         else:
-            copyv = r.random() < 0.5
-            cand = sorted(model.pmax)
-            names = r.sample(cand, r.randint(0, len(cand))) if cand else []
-            if names and r.random() < 0.2:
-                names.append(r.choice(names))           # a repeated name
-            if not copyv and r.random() < 0.5:
-                names.insert(r.randint(0, len(names)), '~nonexistent~')
-                if model.tmax and r.random() < 0.5:
-                    t = r.choice(sorted(model.tmax))
-                    if t not in model.pmax:
-                        names.append(t)                 # a tag name is not a package
-            op = {'op': 'choose_packages_copy' if copyv else 'choose_packages', 'names': names}
-            a = r.choice(['list', 'list', 'iter', 'tuple'])
-            if a != 'list':
-                op['as'] = a
+            op = gen_derivation(r, model, k)
         ops.append(op)
-        model = apply(op)
+        model = gen_apply(model, op)
     return {'kind': 'hist', 'ops': ops}
+
+
+START_KINDS = ('empty', 'tagless', 'single', 'tags-only', 'filtered-empty', 'general')
+
+
+def gen_pair_history(r):
+    """History with a LIVE db / db.reverse() pair: a (possibly degenerate) starting collection, v = db.reverse()
+    with both kept, then inserts / queries / reads addressed to either object; the pair ends at a read, a drop or
+    a derivation (the chain continues from one object) and may be formed again."""
+    single = r.random() < 0.4
+    pool = gen_pool(r)
+    future = gen_future(r, pool, single)
+    ops = []
+    model = Rel()
+
+    def push(op):
+        ops.append(op)
+        return gen_apply(model, op)
+
+    start = r.choice(START_KINDS + ('general', 'general'))
+    if start == 'tagless':
+        # packages without any tag, read from lines like 'a', 'b:' - the tag->packages dictionary stays empty
+        model = push(gen_read(r, model, single, pool, future, nlines=r.choice([1, 2, 2, 3, 4]), max_tags=0))
+    elif start == 'single':
+        if r.random() < 0.5:
+            op = gen_read(r, model, single, pool, future, nlines=1)
+            op['entries'] = [dict(e, pkgs=e['pkgs'][:1]) for e in op['entries']]
+            model = push(op)
+        else:
+            op = gen_insert(r, model, pool, single, future)
+            if op is not None:
+                model = push(op)
+    elif start == 'tags-only':
+        # tag keys but no package: the reverse of a tag-less collection
+        model = push(gen_read(r, model, single, pool, future, nlines=r.choice([1, 2, 3]), max_tags=0))
+        model = push({'op': r.choice(['reverse', 'reverse', 'reverse_copy'])})
+    elif start == 'filtered-empty':
+        model = push(gen_read(r, model, single, pool, future))
+        k = r.random()
+        if k < 0.35:
+            op = {'op': r.choice(['filter_packages', 'filter_packages_copy']), 'pred': {'k': 'false'}}
+        elif k < 0.7:
+            op = {'op': r.choice(['filter_tags', 'filter_tags_copy']), 'pred': {'k': 'false'}}
+        else:
+            op = {'op': r.choice(['choose_packages', 'choose_packages_copy']), 'names': []}
+        model = push(op)
+    elif start == 'general':
+        model = push(gen_read(r, model, single, pool, future))
+        for _ in range(r.choice([0, 0, 1, 2])):
+            k = r.random()
+            op = gen_insert(r, model, pool, single, future) if k < 0.4 else gen_derivation(r, model, max(k, 0.34))
+            if op is not None:
+                model = push(op)
+    # 'empty': reverse() of a DB nothing was ever put into
+    model = push({'op': 'reverse_view'})
+    paired = True
+    n_more = r.choice([2, 3, 4, 5, 6, 7, 8, 9])
+    while n_more > 0:
+        n_more -= 1
+        other = paired and r.random() < 0.5
+        tmodel = model.reversed() if other else model       # the model of the object the op addresses
+        k = r.random()
+        if paired:
+            if k < 0.55:
+                op = gen_insert(r, tmodel, pool, single, future)
+            elif k < 0.72:
+                op = gen_query(r, tmodel, pool, future)
+            elif k < 0.79:
+                op = {'op': 'reverse_view'}
+            elif k < 0.86:
+                op = gen_read(r, tmodel, single, pool, future)
+                if r.random() < 0.5:
+                    op['keep'] = 'other'
+            elif k < 0.92:
+                op = {'op': 'drop'}
+            else:
+                op = gen_derivation(r, tmodel, r.uniform(0.34, 1.0))
+        else:
+            if k < 0.40:
+                op = {'op': 'reverse_view'}
+            elif k < 0.65:
+                op = gen_insert(r, tmodel, pool, single, future)
+            elif k < 0.75:
+                op = gen_query(r, tmodel, pool, future)
+            else:
+                op = gen_derivation(r, tmodel, r.uniform(0.34, 1.0))
+        if op is None:
+            continue
+        if other:
+            op['on'] = 'other'
+            model = tmodel
+        kind = op['op']
+        if kind == 'read' and paired:
+            new = gen_apply(model, op)
+            model = model.reversed() if op.get('keep') == 'other' else new
+            ops.append(op)
+            paired = False
+            continue
+        model = push(op)
+        if kind == 'reverse_view':
+            paired = True
+        elif kind == 'drop' or kind in DERIVATIONS:
+            paired = False
+    return {'kind': 'hist', 'ops': ops}
+
+
+def _ent(pkgs, tags=(), **kw):
+    return dict({'pkgs': list(pkgs), 'tags': list(tags)}, **kw)
 
 
 FIXED = [
@@ -1080,7 +1336,51 @@ FIXED = [
                              {'op': 'reverse'}, {'op': 'insert', 'pkg': 'z', 'tags': ['p1', 'p2']},
                              {'op': 'filter_tags', 'pred': {'k': 'notin', 'names': ['p2']}}, {'op': 'reverse_copy'},
                              {'op': 'facet_collection'}, {'op': 'filter_packages_tags', 'pred': {'k': 'ntags', 'min': 1}}]},
+    # ---- live db / db.reverse() pairs on degenerate starting collections -------------------------------------
+    # empty DB: inserts into the original and into the view (single- and multi-character names)
+    {'kind': 'hist', 'ops': [{'op': 'reverse_view'}, {'op': 'insert', 'pkg': 'p', 'tags': ['use::a', 'k']},
+                             {'op': 'insert', 'pkg': 'q', 'tags': ['p'], 'on': 'other'},
+                             {'op': 'insert', 'pkg': 'r', 'tags': ['k', 'q'], 'on': 'other'},
+                             {'op': 'insert', 'pkg': 'lib9', 'tags': ['k', 'zz']},
+                             {'op': 'insert', 'pkg': 'x11-y', 'tags': ['lib9', 'n1'], 'on': 'other'}]},
+    {'kind': 'hist', 'ops': [{'op': 'reverse_view'}, {'op': 'insert', 'pkg': 'u', 'tags': ['v', 'w'], 'on': 'other'},
+                             {'op': 'query', 'names': ['u', 'v', 'zz', '~absent~']},
+                             {'op': 'insert', 'pkg': 'zz', 'tags': []}, {'op': 'insert', 'pkg': 't', 'tags': ['u']},
+                             {'op': 'drop', 'on': 'other'}, {'op': 'filter_packages', 'pred': {'k': 'true'}}]},
+    # packages without any tag ('a', 'b:'): the tag dictionary is empty when the view is made
+    {'kind': 'hist', 'ops': [{'op': 'read', 'entries': [_ent(['a']), _ent(['b'], bare=':'), _ent(['c3'], bare=': ')], 'form': 'list'},
+                             {'op': 'reverse_view'}, {'op': 'query', 'names': ['a', 'k', 'q', '~absent~'], 'on': 'other'},
+                             {'op': 'insert', 'pkg': 'q', 'tags': ['a', 'c3'], 'on': 'other'},
+                             {'op': 'insert', 'pkg': 'd', 'tags': ['k', 'q']},
+                             {'op': 'insert', 'pkg': 'e', 'tags': ['b', 'f'], 'on': 'other'},
+                             {'op': 'insert', 'pkg': 'g7', 'tags': ['k']}]},
+    # a single package
+    {'kind': 'hist', 'ops': [{'op': 'read', 'entries': [_ent(['solo'], ['use::a', 'k'])]},
+                             {'op': 'reverse_view'}, {'op': 'insert', 'pkg': 'm', 'tags': ['solo'], 'on': 'other'},
+                             {'op': 'insert', 'pkg': 'p2', 'tags': ['k', 'm']}, {'op': 'query', 'names': ['p2', 'solo', 'nope']},
+                             {'op': 'read', 'entries': [_ent(['n1', 'n2'], ['k'])], 'keep': 'other'},
+                             {'op': 'insert', 'pkg': 'w', 'tags': ['solo', 'p2']}]},
+    # tag keys but no package (reverse of a tag-less collection): the package dictionary is empty
+    {'kind': 'hist', 'ops': [{'op': 'read', 'entries': [_ent(['a']), _ent(['b1'], bare=':')], 'form': 'stringio'}, {'op': 'reverse'},
+                             {'op': 'reverse_view'}, {'op': 'insert', 'pkg': 'p', 'tags': ['a', 'b1']},
+                             {'op': 'insert', 'pkg': 'x', 'tags': ['p'], 'on': 'other'}, {'op': 'reverse_view'},
+                             {'op': 'insert', 'pkg': 'y', 'tags': ['a', 'x'], 'on': 'other'},
+                             {'op': 'insert', 'pkg': 'z', 'tags': ['y']}]},
+    # everything filtered away, then a view
+    {'kind': 'hist', 'ops': [{'op': 'read', 'entries': [_ent(['a', 'b'], ['k', 'use::a']), _ent(['c'], ['k'])]},
+                             {'op': 'filter_tags', 'pred': {'k': 'false'}}, {'op': 'reverse_view'},
+                             {'op': 'query', 'names': ['a', 'b', 'c', 'k'], 'on': 'other'},
+                             {'op': 'insert', 'pkg': 'd', 'tags': ['k']}, {'op': 'insert', 'pkg': 'e', 'tags': ['a', 'd'], 'on': 'other'}]},
+    # queries on absent names in a chain: a later insert uses the names asked about
+    {'kind': 'hist', 'ops': [{'op': 'read', 'entries': [_ent(['a'], ['k']), _ent(['b'])]},
+                             {'op': 'query', 'names': ['c', 'k', 'zz', 'a', '~absent~']},
+                             {'op': 'insert', 'pkg': 'c', 'tags': ['k', 'zz']}, {'op': 'query', 'names': ['c', 'd', 'zz']},
+                             {'op': 'filter_tags', 'pred': {'k': 'in', 'names': ['zz']}}, {'op': 'query', 'names': ['a', 'b', 'k']},
+                             {'op': 'insert', 'pkg': 'd', 'tags': ['zz', 'k']}]},
 ]
+
+
+PAIR_HISTORIES = {'quick': 20000, 'thorough': 800000}
 
 
 def cases(ctx):
@@ -1090,32 +1390,55 @@ def cases(ctx):
     r = ctx.rng('hist')
     for _ in range(ctx.size(HISTORIES['quick'], HISTORIES['thorough'])):
         yield gen_history(r)
+    r = ctx.rng('pair')
+    for _ in range(ctx.size(PAIR_HISTORIES['quick'], PAIR_HISTORIES['thorough'])):
+        yield gen_pair_history(r)
 
 
-_OPS_Q = {'op:read': 16000, 'op:insert': 26000, 'op:facet_collection': 7500, 'op:reverse': 3500, 'op:reverse_copy': 3500,
-          'op:copy': 4500, 'op:choose_packages': 4800, 'op:choose_packages_copy': 4800, 'op:filter_packages': 4800,
-          'op:filter_packages_copy': 4800, 'op:filter_packages_tags': 4800, 'op:filter_packages_tags_copy': 4800,
-          'op:filter_tags': 4800, 'op:filter_tags_copy': 4800}
-_OPS_T = dict((k, v * 43) for k, v in _OPS_Q.items())
-FLOORS = {'quick': {'nontrivial': 9500, 'monitors': {'M': 100000}, 'counters': _OPS_Q},
-          'thorough': {'nontrivial': 400000, 'monitors': {'M': 4300000}, 'counters': _OPS_T}}
+# floors: about half of what the unchanged tree measures (quick: seeds 0-3; thorough = quick x 40, validated on a thorough run).
+# The pair:* / view-start:* / q:* floors make a run that never drives the live-pair and query classes INCONCLUSIVE.
+_OPS_Q = {'op:read': 27000, 'op:insert': 52000, 'op:facet_collection': 8500, 'op:reverse': 4500, 'op:reverse_copy': 4100,
+          'op:copy': 4700, 'op:choose_packages': 5400, 'op:choose_packages_copy': 5400, 'op:filter_packages': 5200,
+          'op:filter_packages_copy': 5200, 'op:filter_packages_tags': 5200, 'op:filter_packages_tags_copy': 5200,
+          'op:filter_tags': 5200, 'op:filter_tags_copy': 5200,
+          'op:query': 14500, 'op:reverse_view': 18000, 'op:drop': 2400,
+          'pair:op:insert': 22000, 'pair:op:query': 7000, 'pair:op:read': 2800,
+          'pair:insert-on-original': 11000, 'pair:insert-on-view': 11000, 'pair:insert-multichar-name': 11500,
+          'pair:insert/both-empty': 4400, 'pair:insert/no-tags': 2200, 'pair:insert/no-packages': 1600,
+          'pair:insert/single-package': 2600, 'pair:insert/general': 6700,
+          'view-start:both-empty': 4400, 'view-start:no-tags': 2100, 'view-start:no-packages': 1500,
+          'view-start:single-package': 2700, 'view-start:general': 7200,
+          'hist:live-pair-with-insert': 8500, 'q:absent-name-queries': 175000, 'q:with-live-partner': 7000}
+_OPS_T = dict((k, v * 40) for k, v in _OPS_Q.items())
+FLOORS = {'quick': {'nontrivial': 16000, 'monitors': {'M': 180000, 'M.pair': 50000, 'M.query': 250000}, 'counters': _OPS_Q},
+          'thorough': {'nontrivial': 640000, 'monitors': {'M': 7200000, 'M.pair': 2000000, 'M.query': 10000000}, 'counters': _OPS_T}}
 
 
 def conclusive(tier, counters, monitor_evals, extra):
     """K8 is auxiliary: detached (private attributes renamed) is recorded and does not change the verdict,
-    but an attached K8 that never evaluated is a broken monitor."""
-    if monitor_evals.get('K8', 0) == 0 and not any('K8' in d for d in extra.get('detached_monitors', [])):
-        return 'contract monitor K8 is attached but was never evaluated'
+    but an attached K8 that never evaluated is a broken monitor (same for its evaluation on live pairs)."""
+    if not any('K8' in d for d in extra.get('detached_monitors', [])):
+        if monitor_evals.get('K8', 0) == 0:
+            return 'contract monitor K8 is attached but was never evaluated'
+        if monitor_evals.get('K8.pair', 0) == 0:
+            return 'contract monitor K8 is attached but was never evaluated on a live db / db.reverse() pair'
     return None
 
 
-LEVEL_TEXT = ('Runtime monitoring: seeded chain histories (read / insert / 12 derivation kinds, <= 10 operations) are executed '
-              'on the live debtags.DB; after every step all query methods are compared with an independent reference relation '
-              '(set of pairs) transformed by the same operation, and a contract at the hook (K8: db and rdb describe the same '
-              'pairs) is evaluated after every insert/read and on every returned DB, including the intermediate collection '
-              'facet_collection builds.  Held-on-observed, not a proof: reach is the generated histories.')
+LEVEL_TEXT = ('Runtime monitoring: seeded histories (read / insert / 12 derivation kinds / query steps, <= ~12 operations) are executed '
+              'on the live debtags.DB, as chains (each derivation replaces the DB) and with a LIVE db / db.reverse() pair (both objects '
+              'kept, mutated and queried, formed on general and on degenerate collections); after every step all query methods of every '
+              'live object are compared with an independent reference relation (set of pairs) transformed by the same operation, the '
+              'counting / iterating results are snapshotted around all query calls (queries must not change them), and a contract at the '
+              'hook (K8: db and rdb describe the same pairs) is evaluated after every insert/read, on every returned DB (including the '
+              'intermediate collection facet_collection builds) and on both objects of a live pair.  Held-on-observed, not a proof: '
+              'reach is the generated histories.')
 LEVEL_NOTE = ('Trusted: CPython, vp.models.tagrel.Rel, the generator\'s rendering of tag lines. Out of the oracle: aliasing between live '
-              'relatives (chain histories only), duplicate/re-inserted package names, blank input lines, the facet name of a tag without "::", '
-              'whether keys with empty sets survive a derivation.')
+              'relatives other than the db / db.reverse() pair (results of the sharing filter_*/choose_* variants are never mutated next to '
+              'a live parent), what the other object of a pair shows after a read() beyond "old relation or swapped new relation", '
+              'duplicate/re-inserted package names, blank input lines, the facet name of a tag without "::", whether keys with empty sets '
+              'survive a derivation, iteration order.')
 TECHNIQUE = ('runtime monitoring: boundary oracle M (reference relation vs. all DB query methods after every step of a seeded operation '
-             'history) decides; K8 representation contract (db/rdb mutually inverse) attached to DB.insert/read and every DB-returning method localises')
+             'history, on the object operated on and on its live reverse() view; before/after snapshots around query calls) decides; K8 '
+             'representation contract (db/rdb mutually inverse) attached to DB.insert/read and every DB-returning method, and evaluated on '
+             'both objects of a live pair, localises')
